@@ -68,3 +68,7 @@ def cyclic_molecule_with_residues_outside_the_ring(f):
 
 def ff_block_with_nonbonded_span_mixed_nrexcl_and_itp_file_read_later(f):
     return f.get("dimension") in ("fileorder", "listdir")
+
+
+def two_from_itp_fragments_with_keys_not_in_resid_order(f):
+    return f.get("dimension") == "relabel"
